@@ -123,16 +123,27 @@ theorem hydrate_eq : Gen.Persist.hydrateBody = ["obj = cls.__new__(cls)", "obj._
 /-- the dumper is a plain subclass of PyYAML's `SafeDumper` (its scalar representers are the YAML
     layer `Y` of the model) -/
 theorem dumperClass_eq : Gen.Persist.dumperClass = ["SafeDumper", "pass"] ∧
-    Gen.Persist.yamlUtilsImports = ["from yaml import SafeDumper"] := by decide
+    Gen.Persist.yamlUtilsImports = ["from decimal import Decimal", "from yaml import SafeDumper, SafeLoader"] := by
+  decide
 
-/-- every representer registered in the package: none for `Decimal`, `NicknameSlot`, `ObjectRow`
-    (the model's `represent` fails on them) and none that overrides a scalar type -/
+/-- every representer registered in the package: none for `NicknameSlot`, `ObjectRow` (the model's
+    `represent` fails on them), none that overrides a built-in scalar type, and — since cf894eb — one
+    for `Decimal`, which writes `str(value)` under the tag `!snowfakery_decimal` (the model's
+    `Sc.decimal` token) -/
 theorem representers_eq : Gen.Persist.representers =
     ["snowfakery/data_generator_runtime.py: SnowfakeryDumper.add_representer(defaultdict, SnowfakeryDumper.represent_dict)",
      "snowfakery/data_generator_runtime.py: yaml.SafeDumper.add_representer(Dependency, lambda representer, obj: representer.represent_list(obj))",
      "snowfakery/plugins.py: SnowfakeryDumper.add_representer(cls, Representer.represent_object)",
-     "snowfakery/standard_plugins/datasets.py: SnowfakeryDumper.add_representer(quoted_name, Representer.represent_str)"] := by
-  decide
+     "snowfakery/standard_plugins/datasets.py: SnowfakeryDumper.add_representer(quoted_name, Representer.represent_str)",
+     "snowfakery/utils/yaml_utils.py: SnowfakeryDumper.add_representer(Decimal, lambda dumper, value: dumper.represent_scalar('!snowfakery_decimal', str(value)))"] :=
+  rfl
+
+/-- … and the constructors: the same tag is read back as `Decimal(<text>)` by the loader that
+    `load_continuation_yaml` uses (`yaml.safe_load` = `SafeLoader`) -/
+theorem constructors_eq : Gen.Persist.constructors =
+    ["snowfakery/plugins.py: yaml.SafeLoader.add_constructor(f'tag:yaml.org,2002:python/object/apply:{cls.__module__}.{cls.__name__}', lambda loader, node: cls._from_continuation(loader.construct_mapping(node.value[0])))",
+     "snowfakery/utils/yaml_utils.py: SafeLoader.add_constructor('!snowfakery_decimal', lambda loader, node: Decimal(loader.construct_scalar(node)))"] :=
+  rfl
 
 theorem objectReference_eq : Gen.Persist.objectReferenceBases = ["yaml.YAMLObject"] ∧
     Gen.Persist.objectRowYamlAttrs =
@@ -150,10 +161,11 @@ theorem generate_wiring : Gen.Persist.generateContinuation =
 
 theorem resaveBody_eq : Gen.Persist.resaveBody =
     ["relevant_objs = [(obj._tablename, nickname, obj) for nickname, obj in globals.persistent_nicknames.items()]",
-     "already_saved = set((obj._id for _, _, obj in relevant_objs))",
-     "relevant_objs.extend(((tablename, None, obj) for tablename, obj in globals.persistent_objects_by_table.items() if obj._id not in already_saved))",
+     "already_saved = set(((obj._tablename, obj._id) for _, _, obj in relevant_objs))",
+     "relevant_objs.extend(((tablename, None, obj) for tablename, obj in globals.persistent_objects_by_table.items() if (tablename, obj._id) not in already_saved))",
      "relevant_objs = ((table, nick, obj) for table, nick, obj in relevant_objs if table in tables_to_keep_history_for)",
-     "for tablename, nickname, obj in relevant_objs:\n    self.row_history.save_row(tablename, nickname, obj._values)"] := rfl
+     "for tablename, nickname, obj in relevant_objs:\n    self.row_history.save_row(tablename, nickname, obj._values)",
+     "self.row_history.reset_locals()"] := rfl
 
 theorem resave_called : Gen.Runtime.interpreterInitTail = ["RowHistory", "self.resave_objects_from_continuation"] := by
   decide
